@@ -41,6 +41,22 @@ def gen_grid(rng, pf):
     style = rng.choice(pf.get("grid_styles", ["regular", "irregular", "irregular", "daily"]))
     gaps = []
     base = rng.choice([60, 120, 600, 3600])
+    if style == "calendar":
+        # consecutive decision times on different dates that share calendar fields (same day of the month, same
+        # weekday, same day and month of another year)
+        mode = rng.choice(["monthly", "monthly", "yearly", "weekly", "quarterly"])
+        t = t0.replace(day=min(t0.day, 28))
+        t0 = t
+        for _ in range(n - 1):
+            if mode == "weekly":
+                u = t + timedelta(days=7)
+            else:
+                months = {"monthly": 1, "quarterly": 3, "yearly": 12}[mode]
+                y, m = divmod(t.month - 1 + months, 12)
+                u = t.replace(year=t.year + y, month=m + 1)
+            gaps.append(int((u - t).total_seconds()))
+            t = u
+        return [t0 + timedelta(seconds=sum(gaps[:k])) for k in range(n)], gaps
     for _ in range(n - 1):
         if style == "regular":
             gaps.append(base)
@@ -312,3 +328,16 @@ def with_backtest_driver(generate, p=0.2):
         return sc
     wrapped.__wrapped__ = generate
     return wrapped
+
+
+def add_timesteps_later(scenario, share=0.2):
+    """Schedule dimension: part of the decision grid is handed to the transmitter after it was built
+    (Transmitter.add_timesteps).  Decided from the scenario's own prng field so that no draw of the
+    generator's stream is consumed."""
+    import random
+    r = random.Random("later:{}".format(scenario.get("prng")))
+    for env in scenario.get("envs", []):
+        n = len(env.get("grid_input") or env["grid"])
+        if n >= 2 and r.random() < share and not env.get("grid_shared_with"):
+            env["grid_added_later"] = r.randint(1, n - 1)
+    return scenario
